@@ -31,7 +31,7 @@ ASSUMPTIONS = [
 ]
 MANDATORY = ["take_axis:negative-position", "sort_axis", "sort_axis:key", "sort_axis:dict", "take_axis:label", "take_axis:position", "take_axis:repeats", "compress_axis",
              "compress:nd", "dropna:minvalid", "dropna:default", "dropna:1d", "dropna:partial", "fillna", "fillna:inplace", "fillna:positional", "setna:value",
-             "setna:list", "setna:mask", "setna:list+mask", "setna:int-data", "setna:near-miss-value", "setna:near-miss-value-int-data", "axis:not-first", "labels:shuf", "labels:s"]
+             "setna:list", "setna:mask", "setna:list+mask", "setna:tuple", "take_axis:labels-in-the-other-numeric-kind", "setna:int-data", "setna:near-miss-value", "axis:not-first", "labels:shuf", "labels:s"]
 
 
 def budget(tier):
@@ -81,6 +81,10 @@ def case_st(draw):
         else:
             p = {"indexing": "position", "indices": draw(st.lists(st.integers(-n, n - 1), min_size=0, max_size=5))}
         p["as"] = draw(st.sampled_from(["list", "array", "tuple"]))
+        if p["indexing"] == "label" and p["indices"] and core.label_kind(labs) in "if" and all(float(x) == int(x) for x in p["indices"]) and draw(st.integers(0, 2)) == 0:
+            # the same labels written in the other numeric kind (1 for 1.0, 1.0 for 1): the result keeps the axis' kind
+            p["indices"] = [float(x) for x in p["indices"]] if core.label_kind(labs) == "i" else [int(x) for x in p["indices"]]
+            p["other_kind"] = True
     elif op == "compress_axis":
         p["mask"] = draw(st.lists(st.booleans(), min_size=n, max_size=n))
     elif op == "compress":
@@ -90,7 +94,7 @@ def case_st(draw):
         p = {"value": draw(st.sampled_from([0.0, -1, 7.5, "missing", 1, True])), "inplace": draw(st.booleans()), "positional": draw(st.integers(0, 2)) == 0}
     elif op == "setna":
         present = [v for v in vals if v != "NaN"]
-        form = draw(st.sampled_from(["value", "list", "mask", "mask-dimarray", "absent", "list+mask", "near"]))
+        form = draw(st.sampled_from(["value", "list", "mask", "mask-dimarray", "absent", "list+mask", "near", "near"]))
         finite = [v for v in present if v not in ("inf", "-inf")]
         if form == "near" and finite:
             # values that no cell equals, but that are next to ones that do (x + 0.5 over integers, the integral part of a fractional x)
@@ -113,6 +117,7 @@ def case_st(draw):
         else:
             p["value"] = 99
         p["form"] = form
+        p["seq_as"] = draw(st.sampled_from(["list", "list", "tuple"]))      # a sequence of values (and masks) given as a list or as a tuple
         p["inplace"] = draw(st.booleans())
     return {"op": op, "spec": spec, "ax": ax, "axis_form": draw(st.sampled_from(["name", "pos"])), "p": p}
 
@@ -256,6 +261,8 @@ def run_case(case):
         res = lib(lambda: a.take_axis(arg, axis=axis, indexing=p["indexing"]), what=what, sig=sig)
         compare(res, dims, newlabels(pos), take_expected(vals, ax, pos), what, sig, src=a)
         cl.add("take_axis:" + p["indexing"])
+        if p.get("other_kind"):
+            cl.add("take_axis:labels-in-the-other-numeric-kind")
         if len(set(pos)) < len(pos):
             cl.add("take_axis:repeats")
     elif op == "compress_axis":
@@ -362,9 +369,14 @@ def run_case(case):
             arg = p["value"]
             cl.add("setna:list" if isinstance(arg, list) else "setna:value")
             if form == "near":
-                cl.add("setna:near-miss-value" + ("-int-data" if spec["vk"] == "i" else ""))
+                cl.add("setna:near-miss-value")
+                if spec["vk"] == "i":
+                    cl.add("setna:near-miss-value-int-data")
         exp[mask] = float("nan")
         margs_ = [x for x in (arg if isinstance(arg, list) else [arg]) if isinstance(x, (np.ndarray, da.DimArray))]
+        if isinstance(arg, list) and p.get("seq_as") == "tuple":
+            arg = tuple(arg)
+            cl.add("setna:tuple")
         before_ = [np.array(getattr(x, "values", x), copy=True) for x in margs_]
         if p["inplace"]:
             lib(lambda: a.setna(arg, inplace=True), what=what, sig=sig)
